@@ -33,6 +33,9 @@ RULE = (
     "Non-trivial = the sequence asks some "
     "kind again after a different kind, and the pickle contains a dict/set/frozenset or yields "
     ">= 2 findings; distinct = distinct (bytes, query sequence)."
+    ' Pickles that parse but are refused by the decompiler are inside the repeatability clauses;'
+    ' vocabularies include Python-2 spellings, names Python cannot spell and out-of-band buffer'
+    ' opcodes.'
 )
 ASSUMPTIONS = [
     "detailed_results() and the joined `analysis` string are order-dependent presentation and "
